@@ -20,6 +20,7 @@ KINDS = {
     'div': (False, None), 'section#s.k': (False, '#s.k'), 'span': (False, None), 'em{u v}': (False, None), 'p{t}': (False, None),
     '#i1': (False, '#i1'), '.c1': (False, '.c1'), 'br/': (True, None), 'img': (True, None), 'ul': (False, None),
     'span.c2{w}': (False, '.c2'), 'li': (False, None), 'p{l1\nl2}': (False, None),
+    'p{l1\rl2}': (False, None),          # text lines separated by a lone CR are lines too
     # text-only nodes whose children are written in place of the first field (clause (i) only)
     '{a ${0} b}': (False, None), '{[${0}${1:f}]}': (False, None),
 }
@@ -276,9 +277,11 @@ def check(seq, labels, syntax, opts):
                     changes.append((b, 1))
             elif e[0] == 'c':
                 changes.append((b, -1))
-        pos = 0
         first = True
-        for line in out.split(nl):
+        starts = [0] + [m_.end() for m_ in re.finditer(r'\r\n|\n|\r', out)]
+        ends = [m_.start() for m_ in re.finditer(r'\r\n|\n|\r', out)] + [len(out)]
+        for pos, line_end in zip(starts, ends):
+            line = out[pos:line_end]
             if not first and line.strip():      # whitespace-only lines carry no tag or text: left unspecified
                 d = sum(c for off, c in changes if off <= pos)
                 rest = line.lstrip(' \t')
@@ -290,7 +293,6 @@ def check(seq, labels, syntax, opts):
                                                                          depth=d, output=out[:300])))
                     break
             first = False
-            pos += len(line) + len(nl)
     return abbr, bad
 
 
